@@ -51,6 +51,17 @@ def findStart : List RuleDef → Nat → Option Nat
   | [], _ => none
   | r :: rs, i => if r.isStart then some i else findStart rs (i + 1)
 
+/-- the first rule that does not carry the `ignore` modifier -/
+def firstPlain : List RuleDef → Nat → Option Nat
+  | [], _ => none
+  | r :: rs, i => if r.ignored then firstPlain rs (i + 1) else some i
+
+/-- the start rule: the rule called `start`, or else the first rule that is not ignored -/
+def startOf (rules : List RuleDef) : Option Nat :=
+  match findStart rules 0 with
+  | some i => some i
+  | none => firstPlain rules 0
+
 /-- the leading skip: in front of a plain start rule's expression, or of the first member of a
     class start rule -/
 def addLeading (k : Nat) : Expr → Expr
@@ -69,7 +80,7 @@ structure Prepared where
   start : Nat
 
 def prepare (rules : List RuleDef) : Prepared :=
-  let start := findStart rules 0
+  let start := startOf rules
   let entry := start.getD 0
   let ign := ignoredIdxs rules 0
   if ign.isEmpty then ⟨rules.map (·.body), none, entry⟩
